@@ -126,6 +126,25 @@ Check C17_tree_hash_from_bytes_via_conslist :
   (4 * length bs + 4 + 2 * node_count t <= fuel)%nat ->
   tree_hash_from_bytes_old H fuel bs = FOk (th H t).
 Print Assumptions C17_tree_hash_from_bytes_via_conslist.
+Check C17_plain_roundtrip :
+  forall t bs extra, ser t = Some bs -> deser (bs ++ extra) = Some (t, extra).
+Print Assumptions C17_plain_roundtrip.
+Check C17_tree_hash_from_bytes_of_plain_serialization :
+  forall (H : bytes -> bytes), table_ok H ->
+  forall t bs extra fuel, ser t = Some bs -> (6 * length (bs ++ extra) + 4 <= fuel)%nat ->
+  tree_hash_from_bytes H fuel (bs ++ extra) = FOk (th H t).
+Print Assumptions C17_tree_hash_from_bytes_of_plain_serialization.
+Check C17_all_routines_agree :
+  forall (H : bytes -> bytes), table_ok H ->
+  forall h1 n1 h2 n2 c bs t fuel,
+  wf h1 -> valid h1 n1 -> den h1 n1 = t ->
+  reachable H h2 c -> valid h2 n2 -> den h2 n2 = t ->
+  deser_br bs = DOk t ->
+  (length (h_pairs h2) + 4 * length bs + 4 + 2 * node_count t <= fuel)%nat ->
+  tree_hash_stack H fuel h1 n1 = Ok (th H t) /\
+  (exists c', tree_hash_cached H fuel h2 n2 c = Ok (th H t, c')) /\
+  tree_hash_from_bytes H fuel bs = FOk (th H t).
+Print Assumptions C17_all_routines_agree.
 Check C17_example_shared_heap_reachable_cache :
   wf ex_heap /\ valid ex_heap (NPair 2) /\
   (den ex_heap (NPair 2) = let p0 := Pair (Atom [x01; x02; x03]) (Atom [x05]) in Pair (Pair p0 p0) p0) /\
